@@ -451,7 +451,9 @@ func (s *Stream) handleFrame(f Frame) (err error) {
 		}
 	}
 
-	if err != nil {
+	if err != nil && s.state == StateActive {
+		// Only start the closing handshake once: if we already sent a Close (StateClosedByUs) a second one must not
+		// follow it on the wire.
 		s.state = StateClosedByUs
 		// TODO consider flushing the close
 		s.prepareClose(EncodeCloseFramePayload(CloseProtocolError, ""))
